@@ -52,7 +52,7 @@ NAMED = ["SECP112r1", "SECP128r1", "NIST192p", "NIST256p", "SECP256k1"]
 
 def budget(tier):
     if tier == "quick":
-        return dict(runs=14000, wall=80, chunk=100)
+        return dict(runs=17000, wall=80, chunk=100)
     return dict(runs=500000, wall=840, chunk=400)
 
 
